@@ -78,7 +78,14 @@ pub fn parse_patch_date(date_str: &str) -> Result<(i64, i64), ParsePatchDateErro
         ));
     }
 
-    let offset = offset_hours * 3600 + offset_minutes * 60;
+    // The sign belongs to the whole offset, not only to the hours: "-0330" is
+    // -(3h 30m), and "-0030" is negative although its hour field parses as 0.
+    let negative = m.get(2).unwrap().as_str().starts_with('-');
+    let offset = if negative {
+        offset_hours * 3600 - offset_minutes * 60
+    } else {
+        offset_hours * 3600 + offset_minutes * 60
+    };
     // Parse secs_str with a time format %Y-%m-%d %H:%M:%S using the chrono crate
     let dt = chrono::NaiveDateTime::parse_from_str(secs_str, "%Y-%m-%d %H:%M:%S")
         .map_err(|_| ParsePatchDateError::InvalidDate(date_str.to_string()))?
@@ -94,6 +101,18 @@ mod test {
         assert_eq!(
             super::parse_patch_date("2019-01-01 00:00:00 +0000").unwrap(),
             (1546300800, 0)
+        );
+        assert_eq!(
+            super::parse_patch_date("2019-01-01 00:00:00 -0330").unwrap(),
+            (1546313400, -12600)
+        );
+        assert_eq!(
+            super::parse_patch_date("2019-01-01 00:00:00 -0030").unwrap(),
+            (1546302600, -1800)
+        );
+        assert_eq!(
+            super::parse_patch_date("2019-01-01 00:00:00 +0530").unwrap(),
+            (1546281000, 19800)
         );
         match super::parse_patch_date("2019-01-01 00:00:00") {
             Err(super::ParsePatchDateError::MissingTimezoneOffset(_)) => (),
